@@ -1047,6 +1047,13 @@ func (c *specCtx) call(n *SCall) (Val, types.Type) {
 		// marked("x"): the ghost mark x has been set (by the trusted contract of a function that must be shown to have been called)
 		v, _ := arg(0)
 		return scalar(tb.Select(c.ghostArr("marks", SArrB), v.T[0])), boolType
+	case "bounded":
+		// bounded(ctx): the context carries a deadline (ghost flag set by context.WithTimeout/WithDeadline, inherited by WithCancel/WithValue)
+		v, _ := arg(0)
+		if len(v.T) != 2 {
+			c.fail("bounded needs a context value")
+		}
+		return scalar(tb.Select(c.ghostArr("ctxbounded", SArrB), tb.App("ctxkey", SInt, v.T[0], v.T[1]))), boolType
 	case "closed":
 		// closed(ch): the channel value has been closed (ghost flag)
 		v, _ := arg(0)
